@@ -139,8 +139,14 @@ Lemma all_tables :
   sphere_like octahedron_nverts octahedron_faces /\
   sphere_like dodecahedron_nverts dodecahedron_faces.
 Proof.
-  conjs; intros; try apply triangle_disk; try apply quad_disk; try apply tetrahedron_sphere;
-    try apply hexahedron_sphere; try apply icosahedron_sphere; try apply octahedron_sphere; try apply dodecahedron_sphere.
+  split; [apply triangle_disk|].
+  split; [intros; apply quad_disk|].
+  split; [intros; apply tetrahedron_sphere|].
+  split; [intros; apply hexahedron_sphere|].
+  split; [intros c t; exact (proj1 (hexahedron_sphere c t))|].
+  split; [intros c; exact (proj1 (hexahedron_sphere c false))|].
+  split; [intros; apply icosahedron_sphere|].
+  split; [apply octahedron_sphere | apply dodecahedron_sphere].
 Qed.
 
 Lemma all_table_counts :
@@ -151,19 +157,24 @@ Lemma all_table_counts :
   (forall u, icosahedron_nverts u = 12 /\ zlen (icosahedron_faces u) = 20) /\
   (octahedron_nverts = 6 /\ zlen octahedron_faces = 8) /\ (dodecahedron_nverts = 20 /\ zlen dodecahedron_faces = 12).
 Proof.
-  conjs; intros; conjs; try reflexivity; try (destruct t; reflexivity); try (destruct c, t; reflexivity).
+  split; [reflexivity|]. split; [reflexivity|].
+  split; [intros t; destruct t; split; reflexivity|].
+  split; [intros v; destruct v; split; reflexivity|].
+  split; [intros c t; destruct c, t; split; reflexivity|].
+  split; [intros u; destruct u; split; reflexivity|].
+  split; [split; [apply octahedron_sphere | apply octahedron_sphere] | split; [apply dodecahedron_sphere | apply dodecahedron_sphere]].
 Qed.
 
 (* ---------------------------------------------------------------- 5. switches are honoured as named *)
 Lemma all_switches :
   (* triangulate: all faces are triangles, resp. quads *)
-  (forall nu nv t u, 2 <= nu -> 2 <= nv -> Forall (fun f => zlen f = if t then 3 else 4) (unit_grid_faces nu nv t u)) /\
-  (forall M m t, Forall (fun f => zlen f = if t then 3 else 4) (torus_faces M m t)) /\
-  (forall t, Forall (fun f => zlen f = if t then 3 else 4) (quad_faces t)) /\
-  (forall c t, Forall (fun f => zlen f = if t then 3 else 4) (hexahedron_faces c t false)) /\
+  (forall nu nv (t u : bool), 2 <= nu -> 2 <= nv -> Forall (fun f : list Z => zlen f = if t then 3 else 4) (unit_grid_faces nu nv t u)) /\
+  (forall M m (t : bool), Forall (fun f : list Z => zlen f = if t then 3 else 4) (torus_faces M m t)) /\
+  (forall t : bool, Forall (fun f : list Z => zlen f = if t then 3 else 4) (quad_faces t)) /\
+  (forall c t : bool, Forall (fun f : list Z => zlen f = if t then 3 else 4) (hexahedron_faces c t false)) /\
   (* volume: exactly one cell on all the vertices, and only then *)
-  (forall v, tetrahedron_cells v = if v then [[0; 1; 2; 3]] else []) /\
-  (forall c t v, hexahedron_cells c t v = if v then [[0; 1; 2; 3; 4; 5; 6; 7]] else []) /\
+  (forall v : bool, tetrahedron_cells v = if v then [[0; 1; 2; 3]] else []) /\
+  (forall c t v : bool, hexahedron_cells c t v = if v then [[0; 1; 2; 3; 4; 5; 6; 7]] else []) /\
   (* forwarding: each named switch reaches the parameter of the same name *)
   (forall c t, axis_aligned_cube_faces c t = hexahedron_faces c t false /\ axis_aligned_cube_cells c t = hexahedron_cells c t false) /\
   (forall c v, hexahedron_4pts_faces c v = hexahedron_faces c false v /\ hexahedron_4pts_cells c v = hexahedron_cells c false v) /\
